@@ -27,7 +27,8 @@ def battery():
                     Metric(name="expr", sql="SUM(amount) / NULLIF(COUNT(DISTINCT kind), 0)")]
             L.add_model(Model(name=n, table=n, primary_key="id",
                               relationships=[Relationship(name=t, type=ty, foreign_key=fk) for t, ty, fk in rels[n]],
-                              dimensions=[Dimension(name="kind", type="categorical"), Dimension(name="status", type="categorical"), Dimension(name="day", type="time", granularity="day", sql="created")],
+                              dimensions=[Dimension(name="kind", type="categorical"), Dimension(name="status", type="categorical"), Dimension(name="day", type="time", granularity="day", sql="created"),
+                                          Dimension(name="customers_kind", type="categorical", sql="kind"), Dimension(name="orders_n", type="numeric", sql="qty")],   # named like the aliases a name clash generates
                               metrics=mets, segments=[Segment(name="xs", sql="{model}.kind = 'x'"), Segment(name="done", sql="status = 'completed'")]))      # `done`: the same unqualified text on every model
         # composite keys: a detail table keyed by (order, line) with one foreign key inside its key and one outside it, a composite-keyed parent
         L.add_model(Model(name="lines", table="lines", primary_key=["order_id", "line_no"],
@@ -82,6 +83,9 @@ def battery():
         dict(metrics=["returns.total"], dimensions=[], segments=["returns.done"]),
         dict(metrics=["customers.n"], dimensions=["customers.kind"], segments=["customers.done"], filters=["customers.kind = 'c'"]),
         dict(metrics=["regions.n"], dimensions=[], filters=["regions.kind = 'c'"]),
+        # the same field name from two models (prefixed aliases) next to a field whose OWN name is one of those aliases
+        dict(metrics=["orders.n"], dimensions=["orders.kind", "customers.kind", "orders.customers_kind"]),
+        dict(metrics=["orders.n", "customers.n"], dimensions=["orders.kind", "customers.orders_n", "stores.kind"]),
     ]
     return layer, queries
 
